@@ -28,94 +28,300 @@ fn word_pos(rb: &[u8; 64], pos: u64, words_before: u16) -> u64 {
     pos + 64 + words_before as u64 * if rb[24] == 0 { 16 } else { 10 }
 }
 
-// @harness id=full_check_arm_ihw props=C09,C02,C01,C07,C04 kind=full tier=quick fns=CdpRunningValidator::check,CdpRunningValidator::preprocess_status_word,CdpRunningValidator::preprocess_ihw,CdpRunningValidator::check_rdh_at_initial_ihw,CdpRunningValidator::report_error,CdpRunningValidator::set_current_rdh,CdpRunningValidator::new stubs=alloc::fmt::format,core::fmt::write,flume::Sender::send
-// Initial-IHW arm (implementation states InitialIHW_/IHW_By_WasDdw0): the word is checked as an IHW
-// whatever its id; running mode adds the RDH stop-bit rule; the IHW is stored.
+
+// The whole-arm harnesses (one symbolic word through `check` from a fixed FSM state) exceed the time and
+// memory limits in CBMC. The composition is split: the dispatch of `check` is proved by the Verus unit
+// v_dispatch against the FSM step contract (full_fsm_step) and the handler contracts below.
+
+static mut STUB_RULE_N: u8 = 0;
+/// stand-in for a rule function returning Result<(), Vec<String>> (verified separately by Verus unit
+/// v_tdh_rules): returns Err with STUB_RULE_N messages, or Ok when 0.
+fn stub_rule_result() -> Result<(), Vec<String>> {
+    let n = unsafe { STUB_RULE_N };
+    if n == 0 {
+        Ok(())
+    } else {
+        let mut v = Vec::new();
+        v.push(String::new());
+        if n > 1 {
+            v.push(String::new());
+        }
+        Err(v)
+    }
+}
+fn stub_check_continuation(_t: &Tdh, _p: Option<&Tdh>) -> Result<(), Vec<String>> {
+    stub_rule_result()
+}
+fn stub_check_tdh_no_continuation<R: RDH>(_t: &Tdh, _r: &R) -> Result<(), Vec<String>> {
+    stub_rule_result()
+}
+
+fn stub_process_readout_frame<T: RDH, C: ChecksOpt + FilterOpt + CustomChecksOpt>(_v: &mut CdpRunningValidator<T, C>) {
+    assert!(false, "[C01][C13] a readout frame is processed only with a stave target");
+}
+
+fn std_validator(all: bool, rb: &[u8; 64], pos: u64, nb: u16) -> V {
+    validator_in(0, all, None, rb, pos, nb + 1)
+}
+
+// @harness id=full_handler_ihw props=C09,C02,C01,C07,C11,C04 kind=full tier=quick fns=CdpRunningValidator::preprocess_ihw,CdpRunningValidator::report_error,CdpRunningValidator::new,CdpRunningValidator::set_current_rdh stubs=alloc::fmt::format,core::fmt::write,flume::Sender::send
 #[kani::proof]
 #[kani::stub(alloc::fmt::format, stub_format)]
 #[kani::stub(core::fmt::write, stub_fmt_write)]
 #[kani::stub(flume::Sender::send, stub_send)]
 #[kani::unwind(4)]
-fn full_check_arm_ihw() {
-    let k: u8 = if kani::any() { 0 } else { 10 };
-    let all: bool = kani::any();
+fn full_handler_ihw() {
     let rb: [u8; 64] = kani::any();
-    let pos: u64 = kani::any();
-    kani::assume(pos < (1u64 << 62));
-    let nb: u16 = kani::any();
-    kani::assume(nb < 6000);
-    let mut v = validator_in(k, all, None, &rb, pos, nb);
+    let all: bool = kani::any();
+    let mut v = std_validator(all, &rb, 64, 0);
     let w: [u8; 10] = kani::any();
-    v.check(&w[..]);
-    let viol = !spec_ihw_sane(&w) || (all && s_stop_bit(&rb) != 0);
-    assert!(!(sent_errors() > 0 && !viol), "[C01][C09] conforming IHW at packet start is not reported");
-    assert!(!(sent_errors() == 0 && viol), "[C02][C09] word that is not a sane IHW where an IHW is due (or IHW in a stop-bit packet, running mode) is reported");
-    assert!(sent_total() == sent_errors(), "[C01] only error messages are sent by the IHW arm");
-    assert!(v.tracker.current_word_mem_pos() == word_pos(&rb, pos, nb), "[C07] errors of this word carry the word's own offset");
-    assert!(abs_of(&v.its_state_machine) == Q::Tdh, "[C09] after the IHW a TDH is expected");
-    assert!(v.status_words.ihw().unwrap().active_lanes() as u128 == bits(w80(&w), 27, 0), "[C02] the IHW governing later data words is the one just seen");
+    v.preprocess_ihw(&w[..]);
+    assert!(!(sent_errors() > 0 && spec_ihw_sane(&w)), "[C01][C11] sane IHW is not reported by the IHW handler");
+    assert!(!(sent_errors() == 0 && !spec_ihw_sane(&w)), "[C02][C09][C11] a word that is not a sane IHW is reported where an IHW is due");
+    assert!(sent_total() == sent_errors() && sent_errors() <= 1, "[C01] at most one message per IHW");
+    assert!(v.status_words.ihw().unwrap().active_lanes() as u128 == bits(w80(&w), 27, 0), "[C02] the IHW just seen governs the following data words");
     core::mem::forget(v);
 }
 
-// @harness id=full_check_arm_tdh props=C09,C02,C01,C07,C20,C04 kind=full tier=quick fns=CdpRunningValidator::check,CdpRunningValidator::preprocess_tdh,CdpRunningValidator::check_tdh_no_continuation,CdpRunningValidator::check_tdh_trigger_interval stubs=alloc::fmt::format,core::fmt::write,flume::Sender::send
-// TDH arm (state TDH_By_WasIhw): sanity + (running) no-continuation rules + (configured) trigger period.
+// @harness id=full_handler_tdh props=C09,C02,C01,C07,C11,C20,C04 kind=full tier=quick fns=CdpRunningValidator::preprocess_tdh,StatusWordContainer::replace_tdh stubs=alloc::fmt::format,core::fmt::write,flume::Sender::send
 #[kani::proof]
 #[kani::stub(alloc::fmt::format, stub_format)]
 #[kani::stub(core::fmt::write, stub_fmt_write)]
 #[kani::stub(flume::Sender::send, stub_send)]
-#[kani::unwind(6)]
-fn full_check_arm_tdh() {
-    let all: bool = kani::any();
-    let period: Option<u16> = kani::any();
+#[kani::unwind(4)]
+fn full_handler_tdh() {
     let rb: [u8; 64] = kani::any();
-    let pos: u64 = kani::any();
-    kani::assume(pos < (1u64 << 62));
-    let nb: u16 = kani::any();
-    kani::assume(nb < 6000);
-    let mut v = validator_in(1, all, period, &rb, pos, nb);
-    // history: an earlier TDH (possibly with internal trigger) and the one before it
-    let h1: [u8; 10] = kani::any();
-    let h2: [u8; 10] = kani::any();
-    let nhist: u8 = kani::any();
-    kani::assume(nhist <= 2);
-    if nhist >= 2 {
-        v.status_words.replace_tdh(Tdh::from_buf(&h2[..]).unwrap());
-    }
-    if nhist >= 1 {
-        v.status_words.replace_tdh(Tdh::from_buf(&h1[..]).unwrap());
+    let all: bool = kani::any();
+    let mut v = std_validator(all, &rb, 64, 1);
+    let h: [u8; 10] = kani::any();
+    let has_prev: bool = kani::any();
+    if has_prev {
+        v.status_words.replace_tdh(Tdh::from_buf(&h[..]).unwrap());
     }
     let w: [u8; 10] = kani::any();
-    let x = w80(&w);
-    // BC values beyond 3563 make the period arithmetic underflow (finding F12): excluded here
-    kani::assume(bits(x, 27, 16) <= 3563 && bits(w80(&h1), 27, 16) <= 3563 && bits(w80(&h2), 27, 16) <= 3563);
-    v.check(&w[..]);
-
-    let cont = bits(x, 14, 14) == 1;
-    let orbit_differs = bits(x, 63, 32) as u32 != s_orbit(&rb);
-    let page0_trg = s_pages_counter(&rb) == 0 && (bits(x, 12, 12) == 1 || (s_trigger_type(&rb) >> 4) & 1 == 1);
-    let bc_differs = bits(x, 27, 16) as u16 != s_bc(&rb);
-    let tt_differs = bits(x, 11, 0) as u16 != (s_trigger_type(&rb) & 0xFFF) as u16;
-    let viol_running = cont || orbit_differs || (page0_trg && (bc_differs || tt_differs));
-    // previous internal-trigger TDH = latest earlier one with bit 12
-    let prev_int: Option<u128> = if nhist >= 1 && bits(w80(&h1), 12, 12) == 1 {
-        Some(w80(&h1))
-    } else if nhist >= 2 && bits(w80(&h2), 12, 12) == 1 {
-        Some(w80(&h2))
+    v.preprocess_tdh(&w[..]);
+    assert!(!(sent_errors() > 0 && spec_tdh_sane(&w)), "[C01][C11] sane TDH is not reported by the TDH handler");
+    assert!(!(sent_errors() == 0 && !spec_tdh_sane(&w)), "[C02][C09][C11] a word that is not a sane TDH is reported where a TDH is due");
+    assert!(sent_total() == sent_errors() && sent_errors() <= 1, "[C01] at most one message per TDH");
+    assert!(*v.status_words.tdh().unwrap() == Tdh::from_buf(&w[..]).unwrap(), "[C02][C20] the TDH just seen becomes the current TDH");
+    if has_prev {
+        assert!(*v.status_words.prv_tdh().unwrap() == Tdh::from_buf(&h[..]).unwrap(), "[C02][C20] the former current TDH becomes the previous TDH");
     } else {
-        None
-    };
-    let viol_period = match (period, prev_int) {
-        (Some(p), Some(q)) if bits(x, 12, 12) == 1 => (bits(x, 27, 16) as u32 + 3564 - bits(q, 27, 16) as u32) % 3564 != p as u32,
-        _ => false,
-    };
-    let viol = !spec_tdh_sane(&w) || (all && (viol_running || viol_period));
-    assert!(!(sent_errors() > 0 && !viol), "[C01][C09][C20] conforming TDH after IHW is not reported");
-    assert!(!(sent_errors() == 0 && viol), "[C02][C09][C20] TDH breaking a sanity, state-dependent or trigger-period rule is reported");
-    assert!(sent_total() == sent_errors(), "[C01] only error messages are sent by the TDH arm");
-    assert!(v.tracker.current_word_mem_pos() == word_pos(&rb, pos, nb), "[C07] errors of this word carry the word's own offset");
-    assert!(abs_of(&v.its_state_machine) == if bits(x, 13, 13) == 1 { Q::AfterTdhNoData } else { Q::Data }, "[C09] successor follows the no_data bit");
-    assert!(*v.status_words.tdh().unwrap() == Tdh::from_buf(&w[..]).unwrap(), "[C02] the TDH just seen becomes the current TDH");
-    kani::cover!(viol_period && !viol_running && spec_tdh_sane(&w) && all);
+        assert!(v.status_words.prv_tdh().is_none(), "[C02] no previous TDH before the second one");
+    }
     core::mem::forget(v);
 }
 
+// @harness id=full_handler_tdt props=C09,C02,C01,C11,C04 kind=full tier=quick fns=CdpRunningValidator::preprocess_tdt,StatusWordContainer::replace_tdt stubs=alloc::fmt::format,core::fmt::write,flume::Sender::send
+#[kani::proof]
+#[kani::stub(alloc::fmt::format, stub_format)]
+#[kani::stub(core::fmt::write, stub_fmt_write)]
+#[kani::stub(flume::Sender::send, stub_send)]
+#[kani::stub(CdpRunningValidator::process_readout_frame, stub_process_readout_frame)]
+#[kani::unwind(4)]
+fn full_handler_tdt() {
+    let rb: [u8; 64] = kani::any();
+    let all: bool = kani::any();
+    let mut v = std_validator(all, &rb, 64, 2);
+    let w: [u8; 10] = kani::any();
+    v.preprocess_tdt(&w[..]);
+    assert!(!(sent_errors() > 0 && spec_tdt_sane(&w)), "[C01][C11] sane TDT is not reported by the TDT handler");
+    assert!(!(sent_errors() == 0 && !spec_tdt_sane(&w)), "[C02][C09][C11] a word that is not a sane TDT is reported");
+    assert!(sent_total() == sent_errors() && sent_errors() <= 1, "[C01] at most one message per TDT (no stave target)");
+    assert!(*v.status_words.tdt().unwrap() == Tdt::from_buf(&w[..]).unwrap(), "[C02] the TDT just seen is stored");
+    core::mem::forget(v);
+}
+
+// @harness id=full_handler_ddw0 props=C09,C02,C01,C11,C04 kind=full tier=quick fns=CdpRunningValidator::preprocess_ddw0,CdpRunningValidator::check_rdh_at_ddw0,ItsRdhValidator::check_at_ddw0 stubs=alloc::fmt::format,core::fmt::write,flume::Sender::send
+#[kani::proof]
+#[kani::stub(alloc::fmt::format, stub_format)]
+#[kani::stub(core::fmt::write, stub_fmt_write)]
+#[kani::stub(flume::Sender::send, stub_send)]
+#[kani::unwind(4)]
+fn full_handler_ddw0() {
+    let rb: [u8; 64] = kani::any();
+    let all: bool = kani::any();
+    let mut v = std_validator(all, &rb, 64, 3);
+    let w: [u8; 10] = kani::any();
+    v.preprocess_ddw0(&w[..]);
+    let rdh_viol = all && (s_stop_bit(&rb) != 1 || s_pages_counter(&rb) == 0);
+    let viol = !spec_ddw0_sane(&w) || rdh_viol;
+    assert!(!(sent_errors() > 0 && !viol), "[C01][C11] sane DDW0 in a stop-bit packet is not reported");
+    assert!(!(sent_errors() == 0 && viol), "[C02][C09][C11] DDW0 that is not sane, or seen without RDH stop bit / on page 0 (running mode), is reported");
+    let expect = (!spec_ddw0_sane(&w)) as u32 + (all && s_stop_bit(&rb) != 1) as u32 + (all && s_pages_counter(&rb) == 0) as u32;
+    assert!(sent_errors() == expect && sent_total() == expect, "[C02] one message per broken DDW0 rule");
+    assert!(*v.status_words.ddw().unwrap() == Ddw0::from_buf(&w[..]).unwrap(), "[C02] the DDW0 just seen is stored");
+    core::mem::forget(v);
+}
+
+// @harness id=full_handler_data_word props=C11,C09,C02,C01,C04 kind=full tier=quick fns=CdpRunningValidator::preprocess_data_word,CdpRunningValidator::process_ib_data_word,CdpRunningValidator::process_ob_data_word,CdpRunningValidator::process_cdw,DataWordSanityChecker::check_any,IbDataWordValidator::check,ObDataWordValidator::check stubs=alloc::fmt::format,core::fmt::write,flume::Sender::send
+// Data word handler (no stave target): reported iff id outside the valid ranges, lane inactive in the
+// governing IHW, or OB connector input > 6 (lane rules only in running mode).
+#[kani::proof]
+#[kani::stub(alloc::fmt::format, stub_format)]
+#[kani::stub(core::fmt::write, stub_fmt_write)]
+#[kani::stub(flume::Sender::send, stub_send)]
+#[kani::unwind(4)]
+#[kani::solver(minisat)]
+fn full_handler_data_word() {
+    let rb: [u8; 64] = kani::any();
+    let all: bool = kani::any();
+    let mut v = std_validator(all, &rb, 64, 2);
+    let ihw: [u8; 10] = kani::any();
+    v.status_words.replace_ihw(Ihw::from_buf(&ihw[..]).unwrap());
+    let seen_data: bool = kani::any();
+    if seen_data {
+        v.tracker.set_data_seen();
+    }
+    let w: [u8; 10] = kani::any();
+    let id = w[9];
+    kani::assume(id != ID_CDW || seen_data); // CDW at start of data: see full_handler_cdw
+    // OB ids with connector input 7 make the lane shift overflow (finding F6): excluded here, see full_ob_check
+    kani::assume(!(spec_is_ob_id(id) && !spec_data_id_valid(id)) || !all);
+    v.preprocess_data_word(&w[..]);
+    let mask = bits(w80(&ihw), 27, 0) as u32;
+    let lane_viol = if spec_is_ib_id(id) {
+        (mask >> spec_ib_lane(id)) & 1 == 0
+    } else if spec_is_ob_id(id) {
+        !spec_data_id_valid(id) || (mask >> spec_ob_lane(id)) & 1 == 0
+    } else {
+        false
+    };
+    let viol = !spec_data_id_valid(id) || (all && lane_viol);
+    assert!(!(sent_errors() > 0 && !viol), "[C01][C11] data word with valid id on an active lane is not reported");
+    assert!(!(sent_errors() == 0 && viol), "[C02][C11] data word with invalid id, inactive lane or connector input > 6 is reported");
+    assert!(sent_total() == sent_errors(), "[C01] only error messages are sent by the data word handler");
+    assert!(!v.tracker.start_of_data(), "[C02] after a data word the packet is past start of data");
+    kani::cover!(sent_errors() == 0);
+    kani::cover!(sent_errors() > 0 && spec_data_id_valid(id));
+    core::mem::forget(v);
+}
+
+// @harness id=full_handler_cdw props=C02,C01,C04 kind=full tier=quick fns=CdpRunningValidator::preprocess_data_word,CdpRunningValidator::process_cdw,StatusWordContainer::replace_cdw stubs=alloc::fmt::format,core::fmt::write,flume::Sender::send
+// CDW at the start of a packet's data: reported iff (running mode) its user fields differ from the
+// previous CDW's and its index is not 0.
+#[kani::proof]
+#[kani::stub(alloc::fmt::format, stub_format)]
+#[kani::stub(core::fmt::write, stub_fmt_write)]
+#[kani::stub(flume::Sender::send, stub_send)]
+#[kani::unwind(4)]
+fn full_handler_cdw() {
+    let rb: [u8; 64] = kani::any();
+    let all: bool = kani::any();
+    let mut v = std_validator(all, &rb, 64, 2);
+    let p: [u8; 10] = kani::any();
+    let has_prev: bool = kani::any();
+    if has_prev {
+        v.status_words.replace_cdw(Cdw::from_buf(&p[..]).unwrap());
+    }
+    let mut w: [u8; 10] = kani::any();
+    w[9] = ID_CDW;
+    v.preprocess_data_word(&w[..]);
+    let viol = all && has_prev && bits(w80(&w), 47, 0) != bits(w80(&p), 47, 0) && bits(w80(&w), 71, 48) != 0;
+    assert!((sent_errors() > 0) == viol, "[C01][C02] CDW is reported iff its user fields changed and its index is not 0 (E81)");
+    if all {
+        assert!(*v.status_words.cdw().unwrap() == Cdw::from_buf(&w[..]).unwrap(), "[C02] the CDW just seen is stored");
+    }
+    assert!(!v.tracker.start_of_data(), "[C02] after a CDW the packet is past start of data");
+    core::mem::forget(v);
+}
+
+// @harness id=full_handler_tdh_after_done props=C02,C01,C04 kind=full tier=quick fns=CdpRunningValidator::check_tdh_by_was_tdt_packet_done_true,TdhValidator::check_after_tdt_packet_done_true stubs=alloc::fmt::format,core::fmt::write,flume::Sender::send
+#[kani::proof]
+#[kani::stub(alloc::fmt::format, stub_format)]
+#[kani::stub(core::fmt::write, stub_fmt_write)]
+#[kani::stub(flume::Sender::send, stub_send)]
+#[kani::unwind(4)]
+fn full_handler_tdh_after_done() {
+    let rb: [u8; 64] = kani::any();
+    let mut v = std_validator(true, &rb, 64, 1);
+    let p: [u8; 10] = kani::any();
+    let w: [u8; 10] = kani::any();
+    let has_prev: bool = kani::any();
+    if has_prev {
+        v.status_words.replace_tdh(Tdh::from_buf(&p[..]).unwrap());
+    }
+    v.status_words.replace_tdh(Tdh::from_buf(&w[..]).unwrap());
+    v.check_tdh_by_was_tdt_packet_done_true(&w[..]);
+    let viol = has_prev && bits(w80(&p), 27, 16) > bits(w80(&w), 27, 16);
+    assert!((sent_errors() == 1) == viol && sent_total() == sent_errors(), "[C01][C02] TDH after a completed packet: one E440 iff its BC is lower than the previous TDH's");
+    core::mem::forget(v);
+}
+
+// @harness id=full_handler_rule_wrappers props=C02,C01,C04 kind=full tier=quick fns=CdpRunningValidator::check_tdh_continuation,CdpRunningValidator::check_tdh_no_continuation,CdpRunningValidator::check_rdh_at_initial_ihw stubs=alloc::fmt::format,core::fmt::write,flume::Sender::send,TdhValidator::check_continuation,TdhValidator::check_tdh_no_continuation
+// Wrappers forward every message of the rule function (rule functions stubbed by their Verus-proved
+// contract: Err with one message per broken rule) to the error channel.
+#[kani::proof]
+#[kani::stub(alloc::fmt::format, stub_format)]
+#[kani::stub(core::fmt::write, stub_fmt_write)]
+#[kani::stub(flume::Sender::send, stub_send)]
+#[kani::stub(TdhValidator::check_continuation, stub_check_continuation)]
+#[kani::stub(TdhValidator::check_tdh_no_continuation, stub_check_tdh_no_continuation)]
+#[kani::unwind(4)]
+fn full_handler_rule_wrappers() {
+    let rb: [u8; 64] = kani::any();
+    let mut v = std_validator(true, &rb, 64, 1);
+    let w: [u8; 10] = kani::any();
+    v.status_words.replace_tdh(Tdh::from_buf(&w[..]).unwrap());
+    let n: u8 = kani::any();
+    kani::assume(n <= 2);
+    unsafe { STUB_RULE_N = n };
+    let which: u8 = kani::any();
+    kani::assume(which <= 2);
+    if which == 0 {
+        v.check_tdh_continuation(&w[..]);
+        assert!(sent_errors() == n as u32 && sent_total() == n as u32, "[C01][C02] every broken continuation-TDH rule yields exactly one message");
+    } else if which == 1 {
+        v.check_tdh_no_continuation(&w[..]);
+        assert!(sent_errors() == n as u32 && sent_total() == n as u32, "[C01][C02] every broken TDH-after-IHW rule yields exactly one message");
+    } else {
+        v.check_rdh_at_initial_ihw(&w[..]);
+        let e = (s_stop_bit(&rb) != 0) as u32;
+        assert!(sent_errors() == e && sent_total() == e, "[C01][C02] initial IHW in a stop-bit packet yields exactly one message (E12)");
+    }
+    core::mem::forget(v);
+}
+
+// @harness id=full_handler_trigger_interval props=C20,C02,C01,C04 kind=full tier=quick fns=CdpRunningValidator::check_tdh_trigger_interval,TdhValidator::check_trigger_interval stubs=alloc::fmt::format,core::fmt::write,flume::Sender::send
+// The period check runs iff a period is configured, a previous internal-trigger TDH exists and the
+// current TDH has the internal trigger bit; it reports iff the BC distance mod 3564 differs.
+#[kani::proof]
+#[kani::stub(alloc::fmt::format, stub_format)]
+#[kani::stub(core::fmt::write, stub_fmt_write)]
+#[kani::stub(flume::Sender::send, stub_send)]
+#[kani::unwind(4)]
+fn full_handler_trigger_interval() {
+    let rb: [u8; 64] = kani::any();
+    let period: Option<u16> = kani::any();
+    let mut v = validator_in(0, true, period, &rb, 64, 2);
+    let a: [u8; 10] = kani::any();
+    let b: [u8; 10] = kani::any();
+    let w: [u8; 10] = kani::any();
+    let nhist: u8 = kani::any();
+    kani::assume(nhist <= 2);
+    if nhist >= 2 {
+        v.status_words.replace_tdh(Tdh::from_buf(&a[..]).unwrap());
+    }
+    if nhist >= 1 {
+        v.status_words.replace_tdh(Tdh::from_buf(&b[..]).unwrap());
+    }
+    v.status_words.replace_tdh(Tdh::from_buf(&w[..]).unwrap());
+    let x = w80(&w);
+    kani::assume(bits(x, 27, 16) <= 3563 && bits(w80(&a), 27, 16) <= 3563 && bits(w80(&b), 27, 16) <= 3563); // BC > 3563: finding F12
+    v.check_tdh_trigger_interval(&w[..]);
+    let prev_int: Option<u128> = if nhist >= 1 && bits(w80(&b), 12, 12) == 1 {
+        Some(w80(&b))
+    } else if nhist >= 2 && bits(w80(&a), 12, 12) == 1 {
+        Some(w80(&a))
+    } else {
+        None
+    };
+    let viol = match (period, prev_int) {
+        (Some(p), Some(q)) if bits(x, 12, 12) == 1 => (bits(x, 27, 16) as u32 + 3564 - bits(q, 27, 16) as u32) % 3564 != p as u32,
+        _ => false,
+    };
+    assert!((sent_errors() == 1) == viol && sent_total() == sent_errors(), "[C20] exactly the consecutive internal-trigger TDHs whose BC distance mod 3564 differs from P are reported (E45)");
+    kani::cover!(viol);
+    kani::cover!(!viol && period.is_some() && prev_int.is_some() && bits(x, 12, 12) == 1);
+    core::mem::forget(v);
+}
